@@ -13,13 +13,23 @@ import (
 	"golang.org/x/tools/go/ssa/ssautil"
 )
 
-const (
-	repoDir    = "/repo"
-	verifDir   = "/verif"
-	harnessDir = "/verif/harness"
-	workDir    = "/verif/.work"
-	hPkgPath   = "github.com/Oudwins/zog/zzverif/h"
+const hPkgPath = "github.com/Oudwins/zog/zzverif/h"
+
+// The registered checks always use /repo and /verif. For my own background explorations
+// (vp run --with-repo) the locations can be redirected with GOSYM_REPO / GOSYM_VERIF.
+var (
+	repoDir    = envOr("GOSYM_REPO", "/repo")
+	verifDir   = envOr("GOSYM_VERIF", "/verif")
+	harnessDir = verifDir + "/harness"
+	workDir    = verifDir + "/.work"
 )
+
+func envOr(k, d string) string {
+	if v := os.Getenv(k); v != "" {
+		return v
+	}
+	return d
+}
 
 // overlayFiles maps virtual paths under /repo/zzverif to the harness sources in /verif/harness.
 func overlayFiles() map[string]string {
